@@ -1,3 +1,4 @@
+import Noodles.Props.C17Reach
 import Noodles.Csi.BinningProof
 import Noodles.Csi.Chunks
 import Noodles.Csi.Query
